@@ -55,6 +55,14 @@ def task(logdir, call_no, i, fails, delay, exc="TaskFail", extra=None):
     fd = os.open(os.path.join(logdir, "exec.log"), os.O_WRONLY | os.O_APPEND | os.O_CREAT)
     os.write(fd, ("%d %d %d\n" % (call_no, i, os.getpid())).encode())
     os.close(fd)
+    if os.path.exists(os.path.join(logdir, "spawn")) and call_no == 1:
+        # the task starts a process of its own (it belongs to the worker's process tree)
+        import subprocess
+        sp = subprocess.Popen(["sleep", "60"])
+        with open(os.path.join(logdir, "spawned_%d" % i), "w") as fh:
+            fh.write(str(sp.pid))
+        if fails:
+            time.sleep(0.5)        # let the other tasks start theirs
     if delay:
         time.sleep(delay)
     if fails:
@@ -165,6 +173,8 @@ def run(c):
     FASTFAIL[0] = bool(c.get("fastfail"))
     PULLS.clear()
     logdir = tempfile.mkdtemp(prefix="verif-m1real-")
+    if c.get("spawn"):
+        open(os.path.join(logdir, "spawn"), "w").close()
     kw = dict(n_jobs=c["n_jobs"], batch_size=c["batch_size"], pre_dispatch=c["pre_dispatch"],
               return_as=c["return_as"], verbose=c.get("verbose", 0))
     if c.get("init") is not None:
@@ -202,9 +212,36 @@ def run(c):
             execs.setdefault(cn, []).append(int(i))
     except FileNotFoundError:
         pass
+    orphans = []
+    if c.get("spawn"):
+        # processes started by the tasks of the (failed) first call: the abort kills the workers' process trees
+        pids = []
+        for f in os.listdir(logdir):
+            if f.startswith("spawned_"):
+                try:
+                    pids.append(int(open(os.path.join(logdir, f)).read()))
+                except ValueError:
+                    pass
+
+        def alive(pid):
+            try:
+                os.kill(pid, 0)
+                return open("/proc/%d/stat" % pid).read().split()[2] != "Z"
+            except (OSError, IndexError):
+                return False
+        end = time.time() + 3.0
+        while time.time() < end and any(alive(p0) for p0 in pids):
+            time.sleep(0.1)
+        orphans = [p0 for p0 in pids if alive(p0)]
+        for p0 in pids:
+            try:
+                os.kill(p0, 9)
+            except OSError:
+                pass
     import shutil
     shutil.rmtree(logdir, ignore_errors=True)
-    return {"calls": list(calls), "execs": execs, "hang": hang, "pulls": {str(k): v for k, v in PULLS.items()}}
+    return {"calls": list(calls), "execs": execs, "hang": hang, "pulls": {str(k): v for k, v in PULLS.items()},
+            "orphans": len(orphans), "spawned": len(pids) if c.get("spawn") else 0}
 
 
 for line in sys.stdin:
